@@ -11,6 +11,7 @@ from contracts import common as K
 from contracts import envs as E
 
 ENV = "Cleaner"
+PROPS = ["C01", "C04", "C05", "C07", "C08", "C09", "C11", "C12"]
 DIRTY, CLEAN, WALL = 0, 1, 2
 MOVES = ((-1, 0), (0, 1), (1, 0), (0, -1))
 
